@@ -81,6 +81,39 @@ def spread_cycles():
     return out
 
 
+ABSTRACT_CYCLE_SCHEMAS = {
+    # unions that are (spec-invalid, but parseable) members of themselves or of each other; interfaces implementing
+    # themselves or each other; a union holding an interface; the generator only has to terminate cleanly on them
+    "union-self-member": "union SU = SU | A\ntype A { x: Int su: SU }\ntype B { y: Int }\ntype Query { su: SU a: A }\n",
+    "union-only-self": "union SU = SU\ntype A { x: Int }\ntype Query { su: SU a: A }\n",
+    "unions-mutual": "union SU = P | A\nunion P = SU | B\ntype A { x: Int su: SU }\ntype B { y: Int }\ntype Query { su: SU p: P a: A }\n",
+    "unions-three-cycle": "union SU = P | A\nunion P = R | B\nunion R = SU\ntype A { x: Int su: SU }\ntype B { y: Int }\ntype Query { su: SU p: P a: A }\n",
+    "union-with-interface-member": "union SU = I | A\ninterface I { x: Int }\ntype A implements I { x: Int su: SU }\ntype B implements I { x: Int y: Int }\ntype Query { su: SU a: A }\n",
+    "interface-implements-itself": "interface SU implements SU { x: Int }\ntype A implements SU { x: Int su: SU }\ntype B { y: Int }\ntype Query { su: SU a: A }\n",
+    "interfaces-mutual": "interface SU implements P { x: Int }\ninterface P implements SU { x: Int }\ntype A implements SU & P { x: Int su: SU }\ntype B { y: Int }\ntype Query { su: SU p: P a: A }\n",
+    "object-implements-itself": "type A implements A { x: Int su: SU }\nunion SU = A\ntype B { y: Int }\ntype Query { su: SU a: A }\n",
+    "object-implements-union": "type A implements SU { x: Int su: SU }\nunion SU = A | B\ntype B { y: Int }\ntype Query { su: SU a: A }\n",
+}
+
+ABSTRACT_CYCLE_QUERIES = [
+    ("typename-only", "query Q { su { __typename } }\n"),
+    ("inline-on-member", "query Q { su { __typename ... on A { x } } }\n"),
+    ("inline-on-self", "query Q { su { __typename ... on SU { __typename } } }\n"),
+    ("inline-on-non-member", "query Q { su { __typename ... on B { y } } }\n"),
+    ("spread-on-member", "query Q { su { __typename ...FA } }\nfragment FA on A { x }\n"),
+    ("spread-on-self", "query Q { su { ...FS } }\nfragment FS on SU { __typename ... on A { x } }\n"),
+    ("self-inside-member", "query Q { a { ... on SU { __typename } x } }\n"),
+    ("member-inside-self-inside-member", "query Q { a { su { __typename ... on A { su { __typename ... on SU { __typename ... on A { x } } } } } } }\n"),
+    ("no-typename", "query Q { su { ... on A { x } } }\n"),
+    ("recursive-fragment", "query Q { su { ...FS } }\nfragment FS on SU { __typename ... on A { su { ...FS } } }\n"),
+]
+
+
+def abstract_cycles():
+    """(label, schema text, document)"""
+    return [("%s / %s" % (sl, ql), st, qt) for sl, st in ABSTRACT_CYCLE_SCHEMAS.items() for ql, qt in ABSTRACT_CYCLE_QUERIES]
+
+
 def nesting(depths=(8, 16, 32, 64, 200, 3000)):
     out = []
     for d in depths:
